@@ -1,5 +1,6 @@
 import OpacusLean.Lemmas.GradSample
 import OpacusLean.Lemmas.GradSampleConv2
+import OpacusLean.Lemmas.GsmPairing
 /-! # C01 — per-sample gradients equal the gradient of each sample taken alone
 
 Part 1: adjoint identities.  For a layer whose forward on one sample is `fwd θ a` (linear in the
@@ -417,5 +418,84 @@ satisfies every hypothesis on contiguous storage -/
 example : let c : Conv2dCfg := ⟨2, 4, 6, 2, 5, 6, 2, 3, 2, 1, 1, 2, .explicit 1, .same, .zeros⟩
     c.G * c.Og = c.O ∧ c.G * c.Cg = c.C ∧ 0 < c.s0 ∧ 0 < c.s1 ∧ c.fits = true ∧
     (Strides4.rowMajor c.C c.Hp c.Wp).h = c.Wp ∧ (Strides4.rowMajor c.C c.Hp c.Wp).w = 1 := by decide
+
+/-! ## Part 2: the hook bookkeeping of `GradSampleModule` (`hooks_pairing`)
+
+`Opacus.GSM` models `capture_activations_hook` / `capture_backprops_hook` /
+`create_or_accumulate_grad_sample` / `promote_current_grad_sample` with their per-module activation
+stacks, per-parameter `_forward_counter` / `_current_grad_sample`, and `max_batch_len`.  A forward
+pass is ANY list of uses `(module, activation, cotangent)` – a module may occur several times (reused
+layer, recurrent cell) and a parameter may belong to several modules (tied weights). -/
+section hooks
+open Opacus.GSM
+variable {A B G : Type} [Add G] [Zero G]
+
+/-- **hooks_pairing.**  From every quiescent state, for every pass whose backward hooks arrive in the
+reverse order of the forward hooks (autograd contract), every batch length `Bn` and every sampler
+returning `Bn` rows: no error is raised, all stacks / counters / accumulators are back to rest, and
+`p.grad_sample` is promoted with ONE tensor of `Bn` rows whose row `i` is the sum – in backward
+order – of row `i` of `sampler(activation of use u, cotangent of THE SAME use u [× Bn for mean
+reduction])` over exactly the uses `u` of modules owning `p`.  Parameters without a use are
+untouched. -/
+theorem hooks_pairing (S : Static) (smul : Nat → B → B) (samp : Nat → A → B → Nat → Rows G) (Bn : Nat)
+    (σ₀ : State A G) (hq : Quiescent σ₀)
+    (hacc : σ₀.accumAllowed = true ∨ ∀ p, σ₀.gradSample p = .none)
+    (hrows : ∀ m a b p, (samp m a b p).n = Bn) (us : List (Use A B))
+    (hne : ∀ u ∈ us, (S.params u.m).isEmpty = false) :
+    let σ := run S smul samp σ₀ (fwdOps Bn us ++ bwdOps us)
+    σ.err = none ∧ (∀ m, σ.maxLen m = none) ∧ (∀ p, σ.counter p = 0 ∧ σ.current p = none) ∧
+    (∀ m, us.any (fun u => u.m == m) = true → σ.acts m = some []) ∧
+    ∀ p, σ.gradSample p =
+      match (us.filter (usesP S p)).reverse with
+      | [] => σ₀.gradSample p
+      | u :: rest => promote (σ₀.gradSample p)
+          ⟨Bn, fun i => if i < Bn then
+            rest.foldl (fun acc v => acc + (contrib S smul samp Bn v p).row i) ((contrib S smul samp Bn u p).row i)
+          else 0⟩ := by
+  intro σ
+  have hσ : σ = stateOf S smul samp Bn σ₀ [] us := run_pass S smul samp Bn σ₀ hq hacc hrows us hne
+  rw [hσ]
+  refine ⟨rfl, fun m => by simp [stateOf], fun p => ⟨by simp [stateOf], by simp [stateOf]⟩, ?_, ?_⟩
+  · intro m hm
+    simp only [stateOf, List.nil_append, hm, if_true, List.filter_nil, List.map_nil]
+  · intro p
+    simp only [stateOf, List.any_nil, Bool.not_false, Bool.true_and]
+    cases hrev : (us.filter (usesP S p)).reverse with
+    | nil =>
+      have hf : us.filter (usesP S p) = [] := by simpa using hrev
+      have hany : us.any (usesP S p) = false := by
+        cases h : us.any (usesP S p) with
+        | false => rfl
+        | true =>
+          obtain ⟨v, hv, hvp⟩ := List.any_eq_true.mp h
+          have : v ∈ us.filter (usesP S p) := List.mem_filter.mpr ⟨hv, hvp⟩
+          rw [hf] at this; cases this
+      simp [hany]
+    | cons u rest =>
+      have hany : us.any (usesP S p) = true := by
+        have hu : u ∈ us.filter (usesP S p) := by
+          have : u ∈ (us.filter (usesP S p)).reverse := by rw [hrev]; exact List.mem_cons_self
+          simpa using this
+        exact List.any_eq_true.mpr ⟨u, (List.mem_filter.mp hu).1, (List.mem_filter.mp hu).2⟩
+      have hdone : done S smul samp Bn us p
+          = contrib S smul samp Bn u p :: rest.map (fun v => contrib S smul samp Bn v p) := by
+        simp [done, hrev]
+      have hcl := accRows_closed Bn (contrib S smul samp Bn u p)
+        (rest.map (fun v => contrib S smul samp Bn v p)) (hrows _ _ _ _)
+        (by intro c hc; simp only [List.mem_map] at hc; obtain ⟨v, _, rfl⟩ := hc; exact hrows _ _ _ _)
+      simp only [hany, if_true, hdone, hcl, List.foldl_map]
+
+/-- non-vacuity: the initial state is quiescent and allows accumulation -/
+example : Quiescent (State.init : State A G) ∧ (State.init : State A G).accumAllowed = true :=
+  ⟨⟨fun _ => Or.inl rfl, fun _ => rfl, fun _ => rfl, fun _ => rfl, rfl, rfl⟩, rfl⟩
+
+/-- **mean_rescale**: under mean reduction the cotangent handed to the sampler is the hook's
+cotangent times the batch length `Bn` (the `1/Bn` of the mean undone), under sum reduction it is
+the cotangent itself. -/
+theorem mean_rescale (S : Static) (smul : Nat → B → B) (samp : Nat → A → B → Nat → Rows G) (Bn : Nat)
+    (u : Use A B) (p : Nat) :
+    contrib S smul samp Bn u p = samp u.m u.a (if S.lossMean then smul Bn u.b else u.b) p := rfl
+
+end hooks
 
 end Opacus.C01
